@@ -97,7 +97,7 @@ def token_lists_default():
             and span_token._token_types == [getattr(span_token, n) for n in span_token.__all__])
 
 
-FAST = ('Html', 'Markdown', 'XWiki20', 'bare-ast')       # one renderer per distinct token set family
+FAST = ('Html', 'Markdown', 'bare-ast')       # one renderer per distinct token set family
 
 
 def same_as_baseline(only=None):
@@ -147,14 +147,14 @@ def g1_scratch(level: int, c1: int, c2: int, c3: int, oi0: int, endnone: bool) -
 
 # ------------------------------------------------------------------------------------------ G2
 
-@lemma('G2.restoration', 'C11', timeout=400, per_path=120,
+@lemma('G2.restoration', 'C11', quick=[{'ri': i} for i in range(12)], timeout=600, per_path=120,
        covers=['base_renderer.py:BaseRenderer.__exit__', 'markdown_renderer.py:MarkdownRenderer.__init__',
                'block_token.py:reset_tokens', 'span_token.py:reset_tokens'],
        note='renderer chosen by symbolic index, probe by symbolic index, an extra custom token optionally passed; '
             'after the context exits both token lists equal the defaults and Inv holds')
 def g2_restoration(ri: int, di: int, extra: bool, raise_inside: bool) -> bool:
     """
-    pre: 0 <= ri < 12 and 0 <= di < 9
+    pre: ri == P('ri') and 0 <= di < 9
     post: _
     """
     from mistletoe import Document, span_token
@@ -194,7 +194,8 @@ class Boom(Exception):
 FAULT_DOC = 'a `code` b\n\n> q `c2`\n> x\n\n- i `c3`\n\nz `y`\n'
 
 
-@lemma('G3.faults', 'C11', quick=[{'kind': 'span'}, {'kind': 'block'}, {'kind': 'span-init'}, {'kind': 'block-read'}],
+@lemma('G3.faults', 'C11', quick=[{'kind': k, 'p': p} for k in ('span', 'block') for p in range(10)] + [{'kind': 'span-init', 'p': 1}, {'kind': 'span-init', 'p': 5}, {'kind': 'block-read', 'p': 0}, {'kind': 'block-read', 'p': 3}],
+       thorough=[{'kind': k, 'p': p} for k in ('span', 'block', 'span-init', 'block-read') for p in range(10)],
        timeout=900, per_path=200,
        covers=['span_tokenizer.py:tokenize', 'core_tokens.py:find_core_tokens', 'span_token.py:InlineCode.find',
                'block_token.py:Quote.read', 'base_renderer.py:BaseRenderer.__exit__'],
@@ -202,7 +203,7 @@ FAULT_DOC = 'a `code` b\n\n> q `c2`\n> x\n\n- i `c3`\n\nz `y`\n'
             '(hook, c, p); afterwards Inv must hold')
 def g3_faults(c: int, p: int) -> bool:
     """
-    pre: 1 <= c <= 8 and 0 <= p <= 9
+    pre: 1 <= c <= 8 and p == P('p')
     post: _
     """
     from mistletoe import Document, block_token as bt, span_token
